@@ -233,9 +233,10 @@ def corpus_cases(algs):
 
 
 def big_cases(alg):
-    """one update of 2^32+5 zero bytes after a 1-byte update, and the same bytes in smaller updates"""
+    """one update of 2^32+5 zero bytes after a 1-byte update, and the same bytes in smaller updates; after the long message
+    a reset must forget all of it (both length words): a short message hashed next has its standard digest"""
     return [["new " + alg, "upd 61", "updz %d" % BIG_N, "str"],
-            ["new " + alg, "upd 61", "updz 2147483648", "updz 2147483648", "updz 5", "str"]]
+            ["new " + alg, "upd 61", "updz 2147483648", "updz 2147483648", "updz 5", "str", "reset", "upd 616263", "str", "reset", "str"]]
 
 
 class HashFamily(diffrun.Family):
